@@ -2873,7 +2873,8 @@ class BipartiteGraphEmbed(Decomposition):
             B, mean_photon_per_mode=mean_photon_per_mode, atol=tol, rtol=0
         )
 
-        if not self.identity or not drop_identity:
+        # NOTE: an identity matrix of edge weights is not an identity transformation
+        if True:  # pylint: disable=using-constant-test
             for m, s in enumerate(sq):
                 s = s if np.abs(s) >= _decomposition_tol else 0
 
